@@ -140,6 +140,22 @@ recorded as a finding.
 * C02/C06/C17 sender tie: when the generator began to number ordered messages from stream sequence
   numbers near 65535 the real sender still counted from 0 (the adapter did not preset
   `_outbound_stream_seq`): 107 spurious disagreements, adapter corrected.
+* C04 model and oracle had taken a defect for the specification: `recv_next` of `Model/Dtls.v` returned
+  `RxCrash` for an empty datagram (the `IndexError` of `data[0]`), and the oracle of the scripted-handshake
+  cases expected `start()` to raise when the script contained one.  That is faithful to the code as it
+  was, but the behaviour is a genuine C05 defect (an empty UDP datagram from anybody closed the DTLS
+  transport; demonstrated on two real peer connections over loop-back UDP, repaired by fix commit
+  220ae12).  When the repair went in, C04's check raised an alarm on the repaired tree (147
+  disagreements, `start-raised`): a false alarm of the machinery.  Model (`None => RxOk RxNone`), two proofs
+  and the oracle were corrected; `C05_dtls_demux_total` now states that demultiplexing never ends
+  with an exception other than `ConnectionError`, and C05's parser family hands every generated byte
+  string (length 0 included) to the real `_recv_next`.  Lesson recorded in 11.8: a model that mirrors a
+  crash must be paired with an oracle that rejects the crash, not one that expects it.
+* Pairing of channels in the two-endpoint oracles (C01/C02/C06) matched every channel with every peer
+  channel of the same stream id; the new "one id, several channels in a row" scenarios made that
+  ambiguous (300/300 `corrupt-message` on the unchanged tree before any result was recorded).  Channels
+  are now paired incarnation by incarnation, and C13's id-parity rule skips negotiated channels, whose
+  id the application chooses.
 """
 
 LIMITS = r"""
@@ -147,6 +163,10 @@ LIMITS = r"""
 
 * Every theorem is about a model; the tie is differential testing whose strength is the generator's.
   The evidence files print the input distribution of every run.
+* The models mirror the code, crashes included (`RxCrash`, `EvRaise`, `OutAssert`, `StartCrash` outputs).
+  A crash output that a received datagram can reach is either proved unreachable (Props/C05.v), rejected
+  by the oracle of the check that drives that path, or listed as a finding; the one place where an
+  oracle had accepted such an output (an empty datagram in C04's handshake scripts) is described in 11.6.
 * PARTIAL parts (also in MANIFEST notes): C01 "delivered after healing" (oracle); C02 the closed loop of
   two endpoints within bounded time (oracle; sender drainage against an ideal peer and the receiver's
   answer are theorems); C03 "actually connects" (real loop-back pairs); C04 packet protection by
